@@ -723,7 +723,8 @@ def formula_grammar(table):
     # Convert "(composite) count" to a pair
     opengrp = space + Literal('(').suppress() + space
     closegrp = space + Literal(')').suppress() + space
-    explicit_group = opengrp + composite + closegrp + count
+    # Note: no white space between ")" and its count, so "(H2O) 2NaCl" is H2O + 2NaCl
+    explicit_group = opengrp + composite + space + Literal(')').suppress() + count
     def convert_explicit(string, location, tokens):
         """convert (fragment)count"""
         #print "explicit", tokens
